@@ -22,7 +22,7 @@ func init() {
 	core.Register(&core.Prop{
 		ID:    "C11",
 		Level: "exploration",
-		Rule: "trial = channel (sync / queued blocking / queued non-blocking, Q in 1,2,8,64) closed by one of 6 closers (user goroutine, handler on the read loop, parent-context end, transport read failure, sender write failure, holder CloseAll) with one of 5 Close arguments (nil, sentinel, wrapped, timeout net.Error, non-timeout net.Error); " +
+		Rule: "trial = channel (sync / queued blocking / queued non-blocking, Q in 1,2,8,64) closed by one of 7 closers (user goroutine, handler on the read loop, parent-context end, transport read failure, sender write failure, holder CloseAll, parent-context end followed by Close while the sender is busy on a slow transport) with one of 9 Close arguments (nil, sentinel, wrapped, timeout net.Error, non-timeout net.Error, io.EOF, io.ErrShortWrite, context.Canceled, net.ErrClosed); " +
 			"after the close has completed every write entry point (Write, Write1, Writev, CtxWrite1, CtxWritev, ReadFrom, Writer().Write) is called repeatedly (the queued select is random) with self-describing payloads; plus a concurrent variant where writers hammer while Close runs and only calls that began after Close returned are judged; " +
 			"oracle: err != nil and no byte of the payload is ever handed to Write/Writev (attempts on the closed mock are logged too); distinct_nontrivial = distinct (mode, queue, closer, argument, entry point, outcome) tuples",
 		Assumptions: []string{
@@ -53,9 +53,14 @@ var c11Args = []struct {
 	{"wrapped", fmt.Errorf("wrapped: %w", errSentinel)},
 	{"net-timeout", tmoErr{true}},
 	{"net-nontimeout", tmoErr{false}},
+	// values some entry point might treat as 'not an error' on its own account
+	{"io.EOF", io.EOF},
+	{"io.ErrShortWrite", io.ErrShortWrite},
+	{"context.Canceled", context.Canceled},
+	{"net.ErrClosed", net.ErrClosed},
 }
 
-var c11Closers = []string{"user", "read-loop-handler", "parent-context", "read-failure", "sender-write-failure", "holder-closeall"}
+var c11Closers = []string{"user", "read-loop-handler", "parent-context", "read-failure", "sender-write-failure", "holder-closeall", "shutdown-busy-sender"}
 
 var c11Entries = []string{"Write1", "Writev", "CtxWrite1", "CtxWritev", "Writer().Write", "ReadFrom", "Write"}
 
@@ -125,7 +130,7 @@ func runC11(c *core.Ctx) {
 				if !c.Mine(idx) {
 					continue
 				}
-				if closer == "sender-write-failure" && md.m == mon.Sync {
+				if (closer == "sender-write-failure" || closer == "shutdown-busy-sender") && md.m == mon.Sync {
 					continue
 				}
 				// closers that do not take an argument run once (arg index 0)
@@ -179,6 +184,16 @@ func c11CloseBy(rig *mon.Rig, closer string, arg error, cancel context.CancelFun
 	switch closer {
 	case "user":
 		rig.Ch.Close(arg)
+	case "shutdown-busy-sender":
+		// Bootstrap.Shutdown's order (the parent context ends, then Close is called) while the background sender is
+		// still busy with earlier payloads on a slow transport; Close is synchronous: it has returned when the call returns
+		for i := 0; i < 3; i++ {
+			rig.Ch.Write1(mon.Payload(14, i, 64))
+		}
+		cancel()
+		rig.Ch.Close(arg)
+		rig.Ex.WaitOutstanding(0, 3*time.Second)
+		return true
 	case "holder-closeall":
 		holder.CloseAll(arg)
 	case "read-loop-handler":
@@ -208,6 +223,9 @@ func c11Grid(c *core.Ctx, id string, m mon.Mode, q int, closer, argName string, 
 		opts.Tr = mon.NewRecTransport()
 		opts.Tr.AcceptAfterClose = true
 		c.Count("grid_cases_with_lenient_transport", 1)
+	}
+	if closer == "shutdown-busy-sender" {
+		opts.Plan = []mon.Step{{At: "tV0", Occ: 0, Kind: mon.Sleep, D: 2 * time.Millisecond}}
 	}
 	if closer == "read-loop-handler" {
 		opts.NoPark = true
@@ -240,8 +258,13 @@ func c11Grid(c *core.Ctx, id string, m mon.Mode, q int, closer, argName string, 
 			seq++
 		}
 	}
-	// let any sender action those calls may have started run to completion
-	if !rig.Ex.WaitOutstanding(0, 10*time.Second) {
+	// let any sender action those calls may have started run to completion (a synchronous Close that returned without
+	// closing the transport leaves the read loop parked: that action cannot be waited for)
+	rest := 0
+	if closer == "shutdown-busy-sender" && rig.T.InRead() > 0 {
+		rest = 1
+	}
+	if !rig.Ex.WaitOutstanding(rest, 10*time.Second) {
 		c.Inconclusive(id, "watchdog: sender still running")
 		return
 	}
